@@ -62,7 +62,7 @@ def gen_plan(rng, index, tier):
     steps = []
     kinds = ["swap", "swap", "cascade", "discharge_fresh", "discharge_pool", "add", "remove", "remove"]
     if cfg["rejected"]:
-        kinds += ["add_occupied", "remove_absent", "readd_present"]
+        kinds += ["add_occupied", "remove_absent", "readd_present", "readd_removed"]
     for _ in range(rng.randint(4, 40)):
         op = rng.choice(kinds)
         s = {"op": op, "a": rng.randrange(1000), "b": rng.randrange(1000)}
@@ -266,8 +266,10 @@ class World:
         op = st["op"]
         if op == "swap":
             a, b = self.pick_core(st["a"]), self.pick_core(st["b"])
-            if a is None or a == b:
+            if a is None:
                 return False
+            if a == b and m.stationary:
+                return False  # (a self-swap with stationary blocks is refused by armi half-way: not generated)
             if not m.stationary_compatible(a, b):
                 return self.expect_refusal(k, st, lambda: fh.swapAssemblies(self.h2o[a], self.h2o[b]))
             fh.swapAssemblies(self.h2o[a], self.h2o[b])
@@ -277,8 +279,8 @@ class World:
             hs = []
             for i in st["idx"]:
                 h = None if i is None else self.pick_core(i)
-                if h is not None and h in hs:
-                    h = None
+                if h is not None and h in hs and m.stationary:
+                    h = None  # duplicates only without stationary blocks (see swap)
                 hs.append(h)
             if hs[0] is None or len([h for h in hs if h is not None]) < 2:
                 return False
@@ -333,6 +335,16 @@ class World:
                 return False
             a = cands[st["a"] % len(cands)]
             return self.expect_refusal(k, st, lambda: core.removeAssembly(self.h2o[a]))
+        if op == "readd_removed":
+            # an assembly taken out earlier is added back *without* a locator (it still remembers its
+            # indices) although its old location has been refilled: must be refused
+            cands = [h for h in sorted(m.purged | set(m.pool))]
+            for h in cands:
+                a_obj = self.h2o[h]
+                ij = tuple(int(x) for x in a_obj.spatialLocator.indices[:2]) if a_obj.spatialLocator is not None else None
+                if a_obj.parent is None and ij in m.loc:
+                    return self.expect_refusal(k, st, lambda: core.add(a_obj))
+            return False
         if op == "readd_present":
             a = self.pick_core(st["a"])
             free = [p for p in self.free if p not in m.loc]
